@@ -443,6 +443,37 @@ func generateMore(suite string, seed uint64, i int, r *rng, id string, g gp) *Ca
 		}
 		return &Case{ID: id, Op: "multi", Arg: map[string]any{"rel": "rename", "map": mm},
 			Runs: []Run{{cfg, edges}, {&cfg2, e2}}}
+	case "union-many": // C09: more than 100 nodes in total, spread over dozens of small components (whole-input quantities leaking
+		// into a component: thresholds on len(G.Nodes), budgets, scratch sizes)
+		k := r.rangeIn(34, 45)
+		var all [][]string
+		for c := 0; c < k; c++ {
+			pre := "c" + strconv.Itoa(c) + "_"
+			n := r.rangeIn(2, 4)
+			if c == 0 {
+				n = r.rangeIn(5, 8)
+			}
+			for i := 1; i < n; i++ {
+				all = append(all, []string{pre + strconv.Itoa(r.intn(i)), pre + strconv.Itoa(i)})
+			}
+			if c == 0 {
+				all = append(all, []string{pre + "0", pre + strconv.Itoa(n-1)}, []string{pre + "1", pre + strconv.Itoa(n-1)})
+			}
+		}
+		if r.chance(1, 2) {
+			pm := r.perm(len(all))
+			a2 := make([][]string, len(all))
+			for i, j := range pm {
+				a2[i] = all[j]
+			}
+			all = a2
+		}
+		cfg := genCfg(r, cp{p1: []int{0, 1}, p2: []int{0, 1}, p4: []int{0, 1, 2, 3, 4}, bk: allBK, p5: []int{0, 1, 2, 4}, virt: 1}, usedNames(all))
+		runs := []Run{{cfg, all}}
+		for _, comp := range componentsOf(all) {
+			runs = append(runs, Run{cfg, comp})
+		}
+		return &Case{ID: id, Op: "multi", Arg: map[string]any{"rel": "union"}, Runs: runs}
 	case "union", "union-dec": // C09 (union-dec: sizes and spacings that are NOT dyadic - compared up to rounding)
 		g.comps = false
 		g.maxN, g.maxM = 6, 9
